@@ -413,7 +413,7 @@ PROPS["C06"] = {
         "streams come from jxlgen plus c06.rs's frame assembly, patch dictionary and plain multi-group writer, all written from the format definition; the oracle compares the decoder with itself, so no pixel model is trusted",
         "patch targets lie inside the colour-resolution frame; alpha patch modes only with a single extra channel (where the coding of alpha_channel is undisputed)",
         "chroma-subsampled Modular frames only with even colour sample sizes",
-        "image sides <= 520 px quick, <= 1100 px thorough; VarDCT, splines, LF frames are not generated here (no pixel-domain VarDCT writer); the one real file is Modular",
+        "image sides <= 520 px quick, <= 1100 px thorough; VarDCT frames only as JPEG transcodes from jxlgen::vardct (8x8 blocks, chroma subsampling, chroma-from-luma, optional valid embedded ICC; 1 in 10 generated images); VarDCT with larger transforms / EPF sigma maps / splines / LF frames are not generated (no pixel-domain VarDCT writer); the one real file is Modular",
         "rectangles lie inside the image and are non-empty (the property's domain)",
     ],
     "level_text": "exploration: thousands (quick) to tens of thousands (thorough) of images x 4-6 request sequences, ~5e8 samples per 1000 cases compared; 11 of 13 injected padding/region bugs detected during construction (2 equivalent mutants)",
@@ -425,14 +425,16 @@ PROPS["C06"] = {
 
 PROPS["C07"] = {
     "worker": "c07", "variant": "chk", "level": "exploration",
-    "rule": ("case = workload (multi-group lossless Modular image, multi-frame image with reference chains incl. multi-group canvases, or the "
-             "real VarDCT multi-frame fixture cmyk_layers.jxl; 1/6 bit-flipped) rendered under: no pool (baseline), repeated render on the same "
+    "rule": ("case = workload (multi-group lossless Modular image; feature frame from the C06 generator: restoration filters, upsampling, "
+             "noise, patches, YCbCr, blended multi-frame; VarDCT frame = transcoded random JPEG, single- and multi-group; multi-frame image "
+             "with reference chains incl. multi-group canvases; or the real 4-layer fixture cmyk_layers.jxl; Modular/anim ones 1/6 "
+             "bit-flipped) rendered under: no pool (baseline), repeated render on the same "
              "object, rayon pools of 1..16 threads, seeded job-order permutations of every for_each_* (hook H4; legal alternative schedules, "
              "also without threads), and 2..6 OS threads calling render_frame concurrently on one shared image with a rayon pool. Oracle: all "
              "outputs of one keyframe bit-identical (f32::to_bits) and success/failure class identical across every configuration. "
              "signature = (workload class, valid/mutated, keyframes, ok count); observed set 'configs' lists the configurations compared"),
     "assumptions": [
-        "generated VarDCT streams are not part of the workload yet (only the one real fixture); race detection by TSan/Miri is part of C02's sanitizer runs",
+        "VarDCT only as JPEG transcodes (8x8 blocks); race detection by TSan/Miri is part of C02's sanitizer runs",
         "error text may differ between configurations (shared error slot keeps the last writer); only the Ok/Err class is compared",
         "a spurious IncompleteFrame under concurrent callers is the C20 known finding and is reported under its signature",
     ],
